@@ -119,12 +119,20 @@ def classes(items):
     return out
 
 
-def check_term(cfg, prog, runs):
+def partitions(runs, structural):
+    """Classes of the argument lists / results / call nodes of all jobs of all runs: by the hashes redun
+    computed, or by the structural hashes of c07_run."""
+    if structural:
+        return (classes([x for r in runs for x in r.c_args]), classes([x for r in runs for x in r.c_res]),
+                classes([x for r in runs for x in r.c_node]))
+    return (classes([e[-1] for r in runs for e in r.entries]), classes([x for r in runs for x in r.res_hash]),
+            classes([x for r in runs for x in r.call_hash]))
+
+
+def check_term(cfg, prog, runs, structural):
     ops = "[" + ";\n ".join("[" + "; ".join(cq_op(e) for e in r.events) + "]" for r in runs) + "]"
     tasks = "[" + "; ".join(nl(r.task_idx) for r in runs) + "]"
-    args = classes([e[-1] for r in runs for e in r.entries])
-    res = classes([x for r in runs for x in r.res_hash])
-    node = classes([x for r in runs for x in r.call_hash])
+    args, res, node = partitions(runs, structural)
     progs = "[" + "; ".join(cq_te(td["body"]) for td in prog) + "]"
     return f"check_prog {cfg} {progs} [] {ops} {tasks} {nl(args)} {nl(res)} {nl(node)}"
 
@@ -147,9 +155,16 @@ def explain(prog, runs, variant):
         return []
     i0 = 0
     j0 = next(j for j, s in enumerate(sigs) if s != sigs[0])
-    if any(r.shared_objects for r in runs):
-        return [(K_SHARED, "call-node / value hashes differ between completion orders of a program whose results "
-                           "hold one container object twice", (i0, j0))]
+    # the same comparison on structural hashes: if those agree, the executions differ only because a value
+    # that holds one object twice (a list, a Handle's namespace string, ...) does not hash like an equal
+    # value built from distinct objects
+    ssigs = [c07_run.structural_signature(r) for r in runs]
+    if len(set(ssigs)) == 1:
+        return [(K_SHARED, "structurally identical executions recorded different value / call-node hashes: the value "
+                           "hash (hash of the pickle) depends on which objects inside a value are shared, and that "
+                           "depends on which duplicate call ran and which was replayed", (i0, j0))]
+    sigs = ssigs
+    j0 = next(j for j, s in enumerate(sigs) if s != sigs[0])
     if vm_c07.handle_free(prog):
         return [("handle-free:graph-depends-on-schedule",
                  "a program without Handles recorded different call-node / argument hashes (or returned a different "
@@ -162,6 +177,14 @@ def explain(prog, runs, variant):
     for idx in groups.values():
         ss = {sigs[i] for i in idx}
         if len(ss) > 1:
+            # runs in which no Handle-taking job re-entered must agree among themselves
+            calm = [i for i in idx if not c07_run.reentered_handle_jobs(runs[i])]
+            if len({sigs[i] for i in calm}) > 1:
+                a = calm[0]
+                b = next(i for i in calm if sigs[i] != sigs[a])
+                out.append(("handle:unexplained-difference",
+                            "same arrival order of sibling calls, nobody re-entered, yet the recorded graphs differ", (a, b)))
+                continue
             a = idx[0]
             b = next(i for i in idx if sigs[i] != sigs[a])
             if any(c07_run.reentered_handle_jobs(runs[i]) for i in idx):
@@ -230,7 +253,7 @@ class Check(PropertyCheck):
         return [{"r0": 100, "r1": 100}, {"r0": 2, "r1": 1}, {"r0": 1, "r1": 1}]
 
     def run_all(self):
-        nprog = 36 if self.tier == "quick" else 500
+        nprog = 24 if self.tier == "quick" else 450
         reps = 2 if self.tier == "quick" else 3
         db = c07_run.DbTemplate()
         self.programs = []
@@ -278,21 +301,22 @@ class Check(PropertyCheck):
         skipped_shared = skipped_other = 0
         items = [(m, pr, rs) for m, pr, rs in self.programs] + [("witness", pr, rs) for _, pr, rs, _ in self.witness_runs]
         for k, (mode, prog, runs) in enumerate(items):
-            if any(r.shared_objects for r in runs):
-                skipped_shared += 1
-                continue
             if not all(modelled(r) for r in runs):
                 skipped_other += 1
                 continue
-            terms.append(check_term(cfg, prog, runs))
+            # redun's own hashes, unless they separate structurally equal values (object sharing, known
+            # finding): then the structural hashes computed by c07_run stand in for them
+            structural = partitions(runs, False) != partitions(runs, True)
+            skipped_shared += structural
+            terms.append(check_term(cfg, prog, runs, structural))
             idx.append(k)
             if mode != "witness":
                 self.sample({"mode": mode, "program": repr([td["body"] for td in prog])[:300],
                              "jobs": len(runs[0].jobs), "runs": len(runs)})
         self.stat("correspondence", "programs replayed in the model", len(terms))
-        self.stat("correspondence", "skipped: a value holds one object twice (known finding)", skipped_shared)
+        self.stat("correspondence", "of these compared on structural hashes (redun's hashes separate equal values that share objects differently)", skipped_shared)
         self.stat("correspondence", "skipped: not modelled", skipped_other)
-        ok, failing, diags = run_bool_cases("c07", ["Model.Timing"], "", terms, chunk=8)
+        ok, failing, diags = run_bool_cases("c07", ["Model.Timing"], "", terms, chunk=6)
         detail = "\n".join(diags)
         for i in failing[:3]:
             mode, prog, runs = items[idx[i]]
